@@ -91,7 +91,7 @@ def run (ctx):
   for qual in ('openflow.of_01:Connection.read', 'datapaths.switch:OFConnection.read'):
     f = repo.func(qual); ctx.analysed(f)
     L = framing.find_loop(repo, f)
-    res, np_ = progress.check_loop(repo, f, L.g, L.head, L.after, L.loop[0], env=q.Env(call_hook=hook))
+    res, np_ = progress.check_loop(repo, f, L.g, L.head, L.after, L.loop[0], env=q.Env(call_hook=hook), cursors=set([L.cur]) if L.cur else set())
     ctx.stat('paths_enumerated', np_)
     if not res: ctx.undecided('R-PROGRESS', f, "framing loop progress", "no loop path enumerated", f, 'D1'); continue
     n_loops += 1
